@@ -399,7 +399,7 @@ class EngineVsStatement(Bounded):
                 for b in ps:
                     for tag in TL.TAGS:
                         times.append(tl.time_at(b, tag))
-                    if b < 0 or tl.in_warp(b):
+                    if tl.in_warp(b):
                         continue
                     cases += 1
                     back = eng.beat_at(eng.time_at(Beat(b)))
@@ -424,6 +424,19 @@ class EngineVsStatement(Bounded):
                     if rw > r:
                         bad = f"beat_at({float(t)}, WARP) = {rw} lies after the default answer {r}"
                     seen_b.append((float(t), r, rw))
+                # "at a time at which a whole warp segment elapses, the WARP tag gives the beat where that stretch starts and the
+                # default gives the furthest beat reached at that time" - for segments that do not start on a paused beat
+                if not is_generic:
+                    paused = {b_ for b_, _ in tl.stops} | {b_ for b_, _ in tl.delays}
+                    for s_, e_ in tl.segs:
+                        if s_ in paused:
+                            continue
+                        t_s = float(tl.time_at(s_, "WARP"))
+                        cases += 1
+                        rw, r = eng.beat_at(t_s, EventTag.WARP), eng.beat_at(t_s)
+                        far = min([p_ for p_ in paused if s_ < p_ < e_], default=e_)      # a pause inside the segment holds the song there
+                        if rw != s_ or r != far:
+                            bad = f"warp segment [{s_}, {e_}) elapses at time {t_s}: beat_at(WARP) = {rw} (start {s_} expected), default = {r} (furthest beat {far} expected)"
                 # the same engine asked again backwards, WARP first: same answers (no state carried between queries)
                 for t_, r_, rw_ in reversed(seen_b):
                     if eng.beat_at(t_, EventTag.WARP) != rw_ or eng.beat_at(t_) != r_ or eng.beat_at(t_, EventTag.WARP) != rw_:
